@@ -504,6 +504,14 @@ class SxInt:
         x = s
         if not isinstance(s, SxInt) or s.is_bv:
             return None
+        if c is None and op in ("or", "xor") and isinstance(o, SxInt):
+            # (x << k) | y with 0 <= y < 2^k: the operands share no set bit, so the result is their sum
+            for a, b in ((s, o), (o, s)):
+                if isinstance(a.org, tuple) and a.org and a.org[0] == "shl":
+                    k = a.org[1]
+                    blo, bhi = b._tight()
+                    if blo is not None and bhi is not None and blo >= 0 and bhi < (1 << k):
+                        return a + b
         if c is None or c < 0:
             raise Unsupported("bit operation between mathematical integers")
         if bool(x < 0):
@@ -585,7 +593,10 @@ class SxInt:
         if n < 0:
             raise ValueError("negative shift count")
         if not s.is_bv:
-            return s * (1 << n)
+            r = s * (1 << n)
+            if isinstance(r, SxInt) and n > 0:
+                r.org = ("shl", n)          # remembered for (x << n) | y
+            return r
         if n == 0:
             return s
         return SxInt(z3.Concat(s.e, z3.BitVecVal(0, n)), s.lo << n, s.hi << n)
